@@ -105,6 +105,11 @@ func (it *Generator) Send(arg Object) (Object, error) {
 	if it.Frame.Yielded {
 		return res, nil
 	}
+	// The generator returned: a return value other than None is
+	// carried by the StopIteration instance
+	if res != nil && res != None {
+		return nil, exceptionNew(StopIteration, Tuple{res})
+	}
 	return nil, StopIteration
 }
 
